@@ -23,7 +23,7 @@ VAMH_ALL = ['basic', 'map', 'pools', 'limits', 'defrag', 'gran', 'malformed', 't
 PROPS = {
     'C01': dict(muh={'tlsf': MUH_TLSF, 'linear': MUH_LIN}),
     'C02': dict(vamh=dict(profiles=VAMH_ALL), muh={'tlsf': ['basic', 'align'], 'linear': ['basic', 'upper']}),
-    'C03': dict(muh={'tlsf': MUH_TLSF, 'linear': MUH_LIN}, vamh=dict(profiles=['basic', 'pools', 'defrag'])),
+    'C03': dict(muh={'tlsf': MUH_TLSF, 'linear': MUH_LIN}, vamh=dict(profiles=['basic', 'pools', 'defrag']), special=['wrap16']),
     'C04': dict(vamh=dict(profiles=VAMH_ALL, faults=['basic', 'pools']), eng={'devh': ['limit', 'count', 'allocfault', 'budgetext']}),
     'C05': dict(muh={'tlsf': MUH_TLSF}),
     'C06': dict(muh={'tlsf': MUH_TLSF, 'linear': MUH_LIN}),
@@ -571,6 +571,18 @@ class Check:
                 self.muh_component(algo, profs)
             if self.spec.get('muh'):
                 self.muh_component('leaf', ['leaf'])
+            for sp in self.spec.get('special', []):
+                # fixed scenarios that random histories cannot reach (e.g. 65536 allocations on one page)
+                rc, out, err = sh([B + '/muh', sp], timeout=600)
+                self.cov['evaluations'] += 1
+                for l in out.split('\n'):
+                    if l.startswith('ORACLE-FAIL') and ('property=%s ' % self.pid) in l:
+                        self.cov['oracle_failures'] += 1
+                        kf = self.known.match(self.pid, l)
+                        if kf:
+                            self.known_hits.append((kf, l))
+                        else:
+                            self.violations.append((self.write_note('special-' + sp, out), l, True))
             for eng, profs in self.spec.get('eng', {}).items():
                 self.engine_component(eng, profs)
             if self.spec.get('vamh'):
